@@ -284,3 +284,54 @@ Proof.
   fold (blocks_after chain start). rewrite Hn. rewrite Z.eqb_refl. rewrite andb_true_r.
   apply andb_true_iff. split; lia.
 Qed.
+
+(* ---------- the co-executed form of a relay round (claims with heights) agrees with `relay` ---------- *)
+Definition claim_nonce (v : val) : Z := vI (vnth 1 v).
+
+Lemma claims_block_relay_block txs : forall c h l0 r0,
+  map claim_nonce l0 = map fst r0 ->
+  let a := fold_left (fun (acc : cursor * list val) t =>
+               let e := classify t in (apply_ev (fst acc) e, snd acc ++ enc_claim (fst acc) h e)) txs (c, l0) in
+  let b := fold_left (fun (acc : cursor * list (Z * bev)) t =>
+               match classify t with
+               | BNone => acc
+               | e => (apply_ev (fst acc) e, snd acc ++ [(cu_nonce (fst acc), e)])
+               end) txs (c, r0) in
+  fst a = fst b /\ map claim_nonce (snd a) = map fst (snd b).
+Proof.
+  induction txs as [|t rest IH]; intros c h l0 r0 H0; cbn [fold_left]; [split; [reflexivity | exact H0]|].
+  cbn [fst snd]. destruct (classify t) eqn:E; cbn [apply_ev enc_claim].
+  - apply IH. rewrite !map_app, H0. reflexivity.
+  - apply IH. rewrite !map_app, H0. reflexivity.
+  - apply IH. rewrite !map_app, H0. reflexivity.
+  - rewrite app_nil_r. destruct c; cbn. apply IH. exact H0.
+Qed.
+
+Lemma claims_blocks_relay_blocks blocks : forall c h,
+  fst (claims_blocks c h blocks) = fst (relay_blocks c h blocks) /\
+  map claim_nonce (snd (claims_blocks c h blocks)) = map fst (snd (relay_blocks c h blocks)).
+Proof.
+  induction blocks as [|txs rest IH]; intros c h; cbn [claims_blocks relay_blocks]; [split; reflexivity|].
+  unfold claims_block, relay_block.
+  destruct (claims_block_relay_block txs (at_block c h) h [] [] eq_refl) as [A B]. cbv zeta in A, B.
+  destruct (fold_left _ txs (at_block c h, @nil val)) as [c1 l1].
+  destruct (fold_left _ txs (at_block c h, @nil (Z * bev))) as [c1' r1].
+  cbn [fst snd] in A, B. subst c1'.
+  destruct (IH c1 (h + 1)) as [A2 B2].
+  destruct (claims_blocks c1 (h + 1) rest) as [c2 l2]. destruct (relay_blocks c1 (h + 1) rest) as [c2' r2].
+  cbn [fst snd] in *. split; [exact A2 | rewrite !map_app, B, B2; reflexivity].
+Qed.
+
+(* the claims a round hands to the committer: whole-block cursor afterwards, event nonces consecutive from the
+   cursor's next nonce *)
+Theorem relay_claims_consistent start chain c latest : 0 <= cu_block start ->
+  consistent start chain c ->
+  consistent start chain (fst (relay_claims chain c latest)) /\
+  map claim_nonce (snd (relay_claims chain c latest)) = zseq (cu_nonce c) (length (snd (relay_claims chain c latest))).
+Proof.
+  intros H0 Hc. destruct (relay_consistent start chain c latest H0 Hc) as [A B].
+  unfold relay_claims, relay in *.
+  destruct (claims_blocks_relay_blocks (blocks_between chain (cu_block c) (Z.min latest (cu_block c + 100))) c (cu_block c + 1)) as [E1 E2].
+  rewrite E1. split; [exact A|].
+  rewrite E2, B. f_equal. rewrite <- (map_length claim_nonce), E2, map_length. reflexivity.
+Qed.
